@@ -366,7 +366,7 @@ def run_single(prop_id, assertions, func):
 # output
 
 def write_replay(prop_id, violation, directory=None):
-    directory = directory or os.path.join(ROOT, "replays", "found")
+    directory = directory or os.environ.get("VERIF_REPLAY_DIR") or os.path.join(ROOT, "replays", "found")
     os.makedirs(directory, exist_ok=True)
     body = {"property": prop_id, "clause": violation["clause"], "detail": violation["detail"], "case": violation["case"]}
     digest = hashlib.sha1(json.dumps(body["case"], sort_keys=True, default=repr).encode("utf-8", "surrogatepass")).hexdigest()[:10]
@@ -410,7 +410,8 @@ def write_evidence(prop_id, tier, level, total, rule, assumptions, wall_s, extra
         "wall_s": round(wall_s, 2),
         "violations": len(total.violations),
     }
-    path = os.path.join(ROOT, "evidence", "%s.json" % prop_id)
+    # sensitivity runs against scratch copies (tools/mutcheck.py, tools/seedcheck.py) redirect their evidence
+    path = os.path.join(os.environ.get("VERIF_EVIDENCE_DIR") or os.path.join(ROOT, "evidence"), "%s.json" % prop_id)
     os.makedirs(os.path.dirname(path), exist_ok=True)
     tmp = path + ".tmp"
     with open(tmp, "w", encoding="utf-8") as fh:
@@ -430,3 +431,48 @@ def load_known_findings():
 
 def open_findings(prop_id):
     return {f["id"]: f for f in load_known_findings() if f["property"] == prop_id and f["status"] == "open"}
+
+
+def run_fuzz_task(prop_id, task, acc):
+    """Thorough-tier supplement: one libFuzzer campaign (vf/fuzz.py) in a subprocess; see DESIGN.md 2.3 E-fuzz."""
+    import shutil
+    import subprocess
+    import tempfile
+
+    deps = os.path.join(ROOT, ".deps")
+    try:
+        sys.path.append(deps)
+        import atheris  # noqa: F401
+    except ImportError:
+        acc.note("fuzz_supplement_skipped_atheris_not_installed")
+        return
+    finally:
+        if deps in sys.path:
+            sys.path.remove(deps)
+    work = tempfile.mkdtemp(prefix="vf-fuzz-")
+    try:
+        out = os.path.join(work, "out.json")
+        corpus = os.path.join(work, "corpus")
+        os.makedirs(corpus)
+        env = dict(os.environ, PYTHONPATH=deps, VERIF_REPO=REPO)
+        cmd = [sys.executable, "-m", "vf.fuzz", prop_id, out, "-runs=%d" % task["runs"], "-seed=%d" % task["seed"], "-max_len=4096", "-len_control=0", corpus]
+        proc = subprocess.run(cmd, cwd=ROOT, env=env, stdout=subprocess.PIPE, stderr=subprocess.STDOUT, text=True, timeout=task.get("timeout", 1800))
+        if not os.path.exists(out):
+            raise HarnessError("fuzz campaign wrote no result (exit %s): %s" % (proc.returncode, proc.stdout[-500:]))
+        with open(out) as fh:
+            doc = json.load(fh)
+        if doc.get("violation"):
+            v = doc["violation"]
+            acc.violations.append({"clause": v["clause"], "detail": "(found by the atheris campaign) " + v["detail"], "case": v["case"]})
+        elif proc.returncode != 0:
+            raise HarnessError("fuzz campaign ended with exit %s: %s" % (proc.returncode, proc.stdout[-500:]))
+        acc.evaluations += int(doc.get("executions", 0))
+        acc.tags["fuzz_executions"] += int(doc.get("executions", 0))
+        acc.tags["fuzz_distinct_nontrivial_cases_(not_added_to_the_total)"] += int(doc.get("distinct_nontrivial", 0))
+        for kf_id, count in (doc.get("known") or {}).items():
+            acc.known[kf_id] += count
+            acc.known_examples.setdefault(kf_id, (doc.get("known_examples") or {}).get(kf_id))
+    except subprocess.TimeoutExpired:
+        acc.note("fuzz_campaign_timed_out_(inconclusive)")
+    finally:
+        shutil.rmtree(work, ignore_errors=True)
